@@ -505,14 +505,16 @@ class DSG:
                     if len(opt_nodes) <= 1:
                         option_node = opt_nodes[0] if len(opt_nodes) == 1 else None
                         taken_choices.append((sel_choice_node, option_node))
-                        self.__class__._taken_single_choices = []
 
                         graph = graph.get_for_apply_selection_choice(sel_choice_node, option_node)
-                        taken_choices += self.__class__._taken_single_choices
+                        taken_choices += graph._taken_single_choices
                         break
             else:
                 break
-        self.__class__._taken_single_choices = taken_choices
+
+        # The record belongs to the graph that was derived (not to the class, where deriving any other graph replaces it)
+        if graph is not self:
+            graph._taken_single_choices = taken_choices
         return graph
 
     def set_influence_matrix(self):
@@ -545,7 +547,7 @@ class DSG:
         return graph.resolve_single_selection_choices()
 
     def get_taken_single_selection_choices(self) -> List[Tuple[SelectionChoiceNode, Optional[DSGNode]]]:
-        return self.__class__._taken_single_choices
+        return self._taken_single_choices
 
     def get_mod_apply_selection_choice(self, choice_node: SelectionChoiceNode, target_option_node,
                                        only_added=False) -> tuple:
